@@ -415,8 +415,17 @@ def strip_comments(s):
     s = re.sub(r"/\*.*?\*/", "", s, flags=re.S)
     return re.sub(r"//[^\n]*", "", s)
 
-def generate(read):
-    """-> text of Gen/Fns.lean"""
+def generate(read, only=None):
+    """-> (text of Gen/Fns.lean, text of Gen/CrcFn.lean); `only` = "fns" | "crc" translates just that part (the other text is None)"""
+    if only == "crc":
+        crc = strip_comments(read("libadsb_deku/src/crc.rs"))
+        head, body = fn_text(crc, r"pub fn modes_checksum\(message: &\[u8\], bits: usize\) -> result::Result<u32, DekuError> \{")
+        pc = P(tokenize(body)); pc.slices.add("message"); pc.bind("bits", 64)
+        crc_stmts = clean(pc.block())
+        if pc.peek()[0] != "eof": raise Unsupported("trailing tokens after modes_checksum")
+        return None, "\n".join(["import Adsb.MiniRust", "import Adsb.Gen.Tables", "/-! GENERATED by /verif/tools/rust2lean.py (called from extract.py) from /repo on every run. Do not edit. -/",
+               "namespace Adsb.Gen", "open Adsb.MiniRust", "set_option linter.unusedVariables false", "",
+               emit_fn2("modesChecksumSrc", "modes_checksum", crc_stmts, "message", 0), "end Adsb.Gen\n"])
     modeac = strip_comments(read("libadsb_deku/src/mode_ac.rs")); lib = strip_comments(read("libadsb_deku/src/lib.rs"))
     items = []
     b, _ = translate(modeac, r"pub\(crate\) fn decode_id13_field\(id13_field: u32\) -> u32 \{", "id13_field", 32)
@@ -443,23 +452,34 @@ def generate(read):
         items.append((lean_name, "map closure of `%s`" % field, stmts, None))
     closure(adsb, "airspeed", "airspeedMapSrc"); closure(adsb, "altitude", "selAltMapSrc"); closure(adsb, "gnss_baro_diff", "gnssDiffMapSrc")
     closure(adsb, "squawk", "statusSquawkMapSrc"); closure(lib, "id", "df21IdMapSrc")
+    if only == "fns":
+        out = ["import Adsb.MiniRust", "/-! GENERATED by /verif/tools/rust2lean.py (called from extract.py) from /repo on every run. Do not edit.",
+               "Each definition is the body of the named Rust function, statement by statement; `bad` collects the overflow checks. -/",
+               "namespace Adsb.Gen", "open Adsb.MiniRust", "set_option linter.unusedVariables false", ""]
+        for lean_name, rust_name, body, bits in items:
+            out.append(emit_fn(lean_name, rust_name, body, "" if bits is None else " after its %d-bit read (`v0`)" % bits))
+            if bits is not None: out.append("/-- width of the field `%s` reads -/\ndef %sBits : Nat := %d\n" % (rust_name, lean_name, bits))
+        out.append("end Adsb.Gen\n")
+        return "\n".join(out), None
     # `modes_checksum(message: &[u8], bits: usize)`: a loop over the table
     crc = strip_comments(read("libadsb_deku/src/crc.rs"))
     head, body = fn_text(crc, r"pub fn modes_checksum\(message: &\[u8\], bits: usize\) -> result::Result<u32, DekuError> \{")
     pc = P(tokenize(body)); pc.slices.add("message"); pc.bind("bits", 64)
     crc_stmts = clean(pc.block())
     if pc.peek()[0] != "eof": raise Unsupported("trailing tokens after modes_checksum")
-    out = ["import Adsb.MiniRust", "import Adsb.Gen.Tables", "/-! GENERATED by /verif/tools/rust2lean.py (called from extract.py) from /repo on every run. Do not edit.",
+    out = ["import Adsb.MiniRust", "/-! GENERATED by /verif/tools/rust2lean.py (called from extract.py) from /repo on every run. Do not edit.",
            "Each definition is the body of the named Rust function, statement by statement; `bad` collects the overflow checks. -/",
            "namespace Adsb.Gen", "open Adsb.MiniRust", "set_option linter.unusedVariables false", ""]
     for lean_name, rust_name, body, bits in items:
         out.append(emit_fn(lean_name, rust_name, body, "" if bits is None else " after its %d-bit read (`v0`)" % bits))
         if bits is not None: out.append("/-- width of the field `%s` reads -/\ndef %sBits : Nat := %d\n" % (rust_name, lean_name, bits))
-    out.append(emit_fn2("modesChecksumSrc", "modes_checksum", crc_stmts, "message", 0))
     out.append("end Adsb.Gen\n")
-    return "\n".join(out)
+    crc_out = ["import Adsb.MiniRust", "import Adsb.Gen.Tables", "/-! GENERATED by /verif/tools/rust2lean.py (called from extract.py) from /repo on every run. Do not edit. -/",
+               "namespace Adsb.Gen", "open Adsb.MiniRust", "set_option linter.unusedVariables false", "",
+               emit_fn2("modesChecksumSrc", "modes_checksum", crc_stmts, "message", 0), "end Adsb.Gen\n"]
+    return "\n".join(out), "\n".join(crc_out)
 
 if __name__ == "__main__":
     import os
     repo = os.environ.get("VERIF_REPO", "/repo")
-    print(generate(lambda p: open(os.path.join(repo, p)).read()))
+    for t in generate(lambda p: open(os.path.join(repo, p)).read()): print(t)
